@@ -5,7 +5,7 @@ from sa.algebra import Evaluator, Poly, Undecided
 from sa.calls import bind, is_name
 from sa.cfg import CFG, conjuncts
 from sa import guards as G
-from sa.common import group_selector_verdict, chain_root, expand_name, resolved_calls, returns_of, value_alternatives
+from sa.common import group_selector_verdict, label_set, chain_root, expand_name, resolved_calls, returns_of, value_alternatives
 from sa.defuse import DefUse, loc_name
 from sa.model import AnalysisError, AnchorMissing, const_value, src, walk_function
 from sa.struct import call_name, find, kwarg, norm
@@ -270,16 +270,22 @@ def d3_outside_brain(ctx):
             sel_e = tgt.slice.elts[0] if same else None
             sel = loc_name(sel_e) if sel_e is not None else None
             # the row selector: a local (its reaching definitions) or the selecting expression written in place
+            du_sel, cfg_sel = du, cfg
             if sel:
                 sd = [(d.value, d.node) for d in du.strong_reaching(sel, st)]
+                if not sd and fi.parent is not None and sel not in fi.params:
+                    # a closure variable: defined (once per call of the enclosing function) outside the worker
+                    du_sel = DefUse(fi.parent.node)
+                    cfg_sel = du_sel.cfg
+                    sd = [(d.value, d.node) for d in du_sel.defs if d.var == sel and d.kind == "assign"]
             else:
                 sd = [(sel_e, cfg.node_for(st))] if sel_e is not None else []
             kinds = []
             for dv, dn in sd:
                 dg = []
-                for t, pol in cfg.guards(dn):
+                for t, pol in cfg_sel.guards(dn):
                     dg += conjuncts(t, pol)
-                if _is_where_not3(dv):
+                if _is_where_not3(dv) or (dv is not None and label_set(du_sel, dv, dn.stmt if dn is not None and dn.stmt is not None else st, ("channel_labels",)) == frozenset({0, 1, 2})):
                     kinds.append("inside")
                 elif _is_all_rows(dv) and not _labels_given(dg):
                     kinds.append("all-unlabelled")
